@@ -199,6 +199,9 @@ pub fn run_conn(c: &Cfg, s: &SrvCfg) -> Run {
     Run { status, log, line, out }
 }
 
+/// UNICODE flag of the CHALLENGE the reference server sent
+fn s_flags_unicode(chal: &[u8]) -> bool { chal.len() >= 24 && chal[20] & 1 != 0 }
+
 fn contains(h: &[u8], n: &[u8]) -> bool { !n.is_empty() && h.windows(n.len()).any(|w| w == n) }
 
 /// implementation-side oracle of C17: where the password may and may not appear
@@ -217,6 +220,37 @@ pub fn secrets_violation(c: &Cfg, r: &Run) -> Option<String> {
             let is_info = f.len() > 15 && f[7] >> 2 == 25 && { let off = if f[13] & 0x80 != 0 { 15 } else { 14 }; f.len() > off + 1 && f[off] == 0x40 && f[off + 1] == 0 };
             if !is_info && (contains(f, &p8) || contains(f, &p16)) { return Some(format!("password found in frame {}", i)); }
         }
+    }
+    // the reference server's reading of the Client Info PDU: flags and the three credential strings
+    if let Some(f) = log.frames.iter().find(|f| f.len() > 15 && f[7] >> 2 == 25 && { let off = if f[13] & 0x80 != 0 { 15 } else { 14 }; f.len() > off + 22 && f[off] == 0x40 && f[off + 1] == 0 }) {
+        let off = if f[13] & 0x80 != 0 { 15 } else { 14 } + 4;
+        let p = &f[off..];
+        let flags = u32::from_le_bytes([p[4], p[5], p[6], p[7]]);
+        let cb = |i: usize| p[8 + 2 * i] as usize | (p[9 + 2 * i] as usize) << 8;
+        let (cd, cu, cp) = (cb(0), cb(1), cb(2));
+        let base = 18;
+        if p.len() < base + cd + 2 + cu + 2 + cp + 2 { return Some("Client Info: counts exceed the packet".into()); }
+        let d = &p[base..base + cd]; let u = &p[base + cd + 2..base + cd + 2 + cu]; let pw = &p[base + cd + 2 + cu + 2..base + cd + 2 + cu + 2 + cp];
+        let (wd, wu, wp) = if c.ra { (vec![], vec![], vec![]) } else { (utf16(&c.dom), utf16(&c.user), utf16(&c.pw)) };
+        if d != &wd[..] || u != &wu[..] || pw != &wp[..] { return Some(format!("Client Info carries domain/user/password that the mode does not prescribe (restricted admin = {})", c.ra)); }
+        if (flags & 0x08 != 0) != c.auto { return Some(format!("auto-logon flag is {} but {} was requested", flags & 0x08 != 0, c.auto)); }
+    } else { return Some("no Client Info PDU seen".into()); }
+    // TSCredentials: empty in restricted-admin and blank-credentials mode, the configured strings otherwise
+    if log.sel == 2 {
+        if let Some(cr) = &log.creds {
+            match crate::props::c01::parse_ts_credentials(cr) {
+                Some((d, u, p)) => {
+                    if (c.ra || c.blank) && !(d.is_empty() && u.is_empty() && p.is_empty()) { return Some("TSCredentials are not empty although restricted admin / blank credentials was requested".into()); }
+                    if !(c.ra || c.blank) {
+                        let unicode = s_flags_unicode(&log.chal);
+                        let enc = |x: &str| if unicode { utf16(x) } else { x.as_bytes().to_vec() };
+                        let pw = if c.hash { String::new() } else { c.pw.clone() };
+                        if d != enc(&c.dom) || u != enc(&c.user) || p != enc(&pw) { return Some("TSCredentials do not carry the configured domain / user / password".into()); }
+                    }
+                }
+                None => return Some("TSCredentials are not a well-formed TSPasswordCreds".into()),
+            }
+        } else { return Some("TSCredentials could not be unsealed by the reference server".into()); }
     }
     // the negotiation request announces restricted admin exactly when requested
     if log.cr.len() >= 13 && (log.cr[12] & 1 != 0) != c.ra { return Some("restricted-admin flag of the negotiation request does not match the mode".into()); }
